@@ -64,14 +64,18 @@ class Eng(Interp):
             for k, ix in enumerate(idx):
                 if ix is None:
                     continue
+                if index[k] is None:
+                    raise Undecided('whole-slice read of a dimension stored pointwise')
                 if isinstance(ix, tuple):
                     ok = False
                     break
                 matched = False
                 for (bv, lo, hi) in bound:
-                    if z3.eq(ix, bv):
-                        pairs.append((bv, index[k]))
-                        conds.append(z3.And(index[k] >= lo, index[k] < hi))
+                    off = z3.simplify(ix - bv)
+                    if z3.is_int_value(off):
+                        tgt = z3.simplify(index[k] - off)
+                        pairs.append((bv, tgt))
+                        conds.append(z3.And(tgt >= lo, tgt < hi))
                         matched = True
                         break
                 if not matched:
@@ -86,7 +90,7 @@ class Eng(Interp):
             g = z3.substitute(z3.And(conds + [guard]), *pairs) if pairs else z3.And(conds + [guard])
             v = self.subst(val, pairs)
             # a full-slice store of a value into a sub-array: the cell holds that value's element
-            free = [k for k, ix in enumerate(idx) if ix is None]
+            free = [k for k, ix in enumerate(idx) if ix is None and index[k] is not None]
             if free and not _is_scalar(v):
                 v = self.app('getitem', [v, tuple(SV(index[k], 'int') for k in free)] if len(free) > 1
                              else [v, SV(index[free[0]], 'int')])
